@@ -58,7 +58,9 @@ func init() {
 			NotCov:  "equality of results across option sets as such (runtime behaviour)."},
 	)
 	addRules("C01", "R-COMMITTED-READ")
-	addRules("C02", "R-SEGPRED", "R-NEWEST", "R-COMMITTED-READ", "R-REPLAY-KV")
+	addRules("C02", "R-SEGPRED", "R-NEWEST", "R-COMMITTED-READ", "R-COMMITTED-SCAN-SPARSE", "R-REPLAY-KV")
+	addRules("C12", "R-COMMITTED-SCAN-SPARSE")
+	reg("R-COMMITTED-SCAN-SPARSE", "RangeScan, PrefixScan and PrefixSearchScan reach the committed-transaction index (ActiveCommittedTxIdsIdx or FindTxIDOnDisk) in their cones: sparse-mode scan results are filtered by committed transactions.", ruleCommittedScanSparse)
 	setExplain("C02", "Decides, for the sparse-mode read paths: every returned entry passed the tombstone and expiry guards; each segment-selection predicate (range, point, prefix) selects every segment that can hold a matching key (all orderings of bounds enumerated); merges are newest-wins (descending file id, first occurrence kept, memory before disk); results belong to committed transactions; the composite index key agrees between commit and reopen.", "")
 	sort.Slice(properties, func(i, j int) bool { return properties[i].ID < properties[j].ID })
 }
